@@ -6,6 +6,7 @@ import Rare.Drv.C04
 import Rare.Model.C06Read
 import Rare.Model.C06Inflate
 import Rare.Model.C06File
+import Rare.Model.C06Dispatch
 /-!
 Line protocol of C06.
 
@@ -276,6 +277,34 @@ def handle : List String → String
       | .err .unexpectedEOF => "err ueof"
       | .err .header => "err header"
     | none => "bad-args"
+  | ["dispatch", bits, readers, batch, bb, args, tree, files, stdin] =>
+    match bits.toList.map (· == '1'), int? readers, int? batch, int? bb, decHexList args, parseTree tree, parseFiles files, Hex.dec stdin with
+    | [fo, re, ta, po, gz, rc], some readers, some batch, some bb, some args, some t, some files, some stdin =>
+      let cut (m : String) : String := (m.splitOn ", is ").headD m
+      let rows (srcs : List SrcRun) : String := joinOrDot ";" (sortStrs ((srcs.flatMap (outLines .all)).map Hex.enc))
+      match dispatch ⟨fo, re, ta, po, gz, rc, readers, batch, bb⟩ args with
+      | .usage u => s!"usage {Hex.enc (ascii (cut u.msg))}"
+      | .stdin _ _ w =>
+        s!"ok closed=1 errs=0 warn={if w then "follow-stdin" else "."} out={rows [runStdin stdin false]}"
+      | .files r gz _ _ _ =>
+        let srcs := (planFiles (Rare.C06.treeFs t) r args).map fun p => runFile gz p (mkFiles files p)
+        s!"ok closed=1 errs={(srcs.map (·.errs)).sum} warn=. out={rows srcs}"
+      | .tail r _ _ re _ ta w =>
+        -- every planned file is followed: what is there is delivered line by line (complete lines only, the reader
+        -- never sees an end of file), raw (no decompression); with --tail the existing content is skipped; a path that
+        -- cannot be opened is a read error (`followreader.New` fails) unless -F waits for it to appear
+        let planned := planFiles (Rare.C06.treeFs t) r args
+        if planned.any (fun p => (mkFiles files p).isDir) then "unmodelled follow-directory"
+        else if re && planned.any (fun p => !(mkFiles files p).canOpen) then "unmodelled reopen-missing-file"
+        else
+        let srcs := planned.map fun p =>
+          let f := mkFiles files p
+          let c := f.content
+          let ls := Rare.C04.splitLines c
+          let complete := if c.getLast? == some nl || c.isEmpty then ls else ls.dropLast
+          ({ name := p, lines := if ta || !f.canOpen then [] else complete, errs := if f.canOpen then 0 else 1, logs := [] } : SrcRun)
+        s!"ok closed=0 errs={(srcs.map (·.errs)).sum} warn={if w then "follow-gunzip" else "."} out={rows srcs}"
+    | _, _, _, _, _, _, _, _ => "bad-args"
   | ["gunzip", c] =>
     match Hex.dec c with
     | some c =>
